@@ -266,6 +266,9 @@ func C05(p *core.Program, r *core.Report) {
 	}
 	checkWholesaleCopies(p, r, "S3")
 	checkPicturePruning(p, r, "S3")
+
+	// ---- S4
+	checkLiteralTextRoundTrip(p, r, "S4")
 }
 
 func shortVal(s string) string {
